@@ -45,12 +45,12 @@ DomOf(c) == [j \in DOMAIN c.dom |-> <<c.dom[j], <<>> >>]
 BaseStore(c, val) ==
   LET st == InitStore(c.decls, DomOf(c), val, 2)
       act == SeqSet(c.act)
-  IN [nm \in DOMAIN st |->
-        IF nm \in act THEN [st[nm] EXCEPT !.d = [p \in DOMAIN @ |-> RZero]]
+  IN TLCEval([nm \in DOMAIN st |->
+        IF nm \in act THEN [st[nm] EXCEPT !.d = TLCEval([p \in DOMAIN @ |-> RZero])]
         ELSE IF nm \in DOMAIN c.pdata
-        THEN [st[nm] EXCEPT !.d = [p \in DOMAIN @ |->
-                 LET x == c.pdata[nm][((p - 1) % Len(c.pdata[nm])) + 1] IN VR(x[1], x[2])]]
-        ELSE st[nm]]
+        THEN [st[nm] EXCEPT !.d = TLCEval([p \in DOMAIN @ |->
+                 LET x == c.pdata[nm][((p - 1) % Len(c.pdata[nm])) + 1] IN VR(x[1], x[2])])]
+        ELSE [st[nm] EXCEPT !.d = TLCEval(@)]])
 
 \* flattened active locations, in the order of c.act
 RECURSIVE LocsFrom(_, _, _)
@@ -65,19 +65,20 @@ WithInput(st, locs, x) ==
                    ELSE Put(StoreAt(s, locs[i][1], locs[i][2], x[i]), i + 1)
   IN Put(st, 1)
 
-Run(body, st) ==
-  LET M == ExecSeq(NewMachine(st, <<>>, FALSE), body, 1)
-  IN IF M.sig = "return" THEN [M EXCEPT !.sig = ""] ELSE M
+Unret(M) == IF M.sig = "return" THEN [M EXCEPT !.sig = ""] ELSE M
+Run(body, st) == Unret(ExecSeq(NewMachine(st, <<>>, FALSE), body, 1))
 
-OutVec(M, locs) == [i \in DOMAIN locs |-> M.st[locs[i][1]].d[locs[i][2]]]
+OutVec(M, locs) == TLCEval([i \in DOMAIN locs |-> M.st[locs[i][1]].d[locs[i][2]]])
 PassiveSame(M, st, pas) == \A i \in DOMAIN pas : M.st[pas[i]].d = st[pas[i]].d
 
 \* one column: [ok (defined), pasok, out]
+ColumnOf(M, st, locs, pas) ==
+  IF M.sig # "" THEN [ok |-> FALSE, pasok |-> TRUE, out |-> <<>>]
+  ELSE [ok |-> TRUE, pasok |-> PassiveSame(M, st, pas), out |-> OutVec(M, locs)]
 Column(body, st, locs, pas, j) ==
-  LET x == [i \in DOMAIN locs |-> IF i = j THEN ROne ELSE RZero]
-      M == Run(body, WithInput(st, locs, x))
-  IN IF M.sig # "" THEN [ok |-> FALSE, pasok |-> TRUE, out |-> <<>>]
-     ELSE [ok |-> TRUE, pasok |-> PassiveSame(M, st, pas), out |-> OutVec(M, locs)]
+  ColumnOf(Run(body, WithInput(st, locs,
+                 TLCEval([i \in DOMAIN locs |-> IF i = j THEN ROne ELSE RZero]))),
+           st, locs, pas)
 
 \* sum_j j * A[j][r]  (exact)
 RECURSIVE Comb(_, _, _)
@@ -86,40 +87,22 @@ Comb(A, r, j) ==
   ELSE ScalBin("+", Comb(A, r, j - 1), ScalBin("*", VR(j, 1), A[j].out[r]))
 
 \* ------------------------------------------------------------------ judging
+\* TLC caches operator ARGUMENTS but re-evaluates LET definitions on every use
+\* inside an action, so every computed matrix is passed on as an argument.
 \* result: [v |-> verdict, w |-> witness record]
-Judge(c, val) ==
-  LET st0  == BaseStore(c, val)
-      locs == LocsFrom(st0, c.act, 1)
-      N    == Len(locs)
-      zero == [i \in 1..N |-> RZero]
-      T0   == Run(c.tl, st0)
-  IN
-  IF T0.sig # "" THEN [v |-> "discard", w |-> [why |-> "ub"]]
-  ELSE IF ~PassiveSame(T0, st0, c.pas) THEN [v |-> "discard", w |-> [why |-> "tlpassive"]]
-  ELSE IF OutVec(T0, locs) # zero THEN [v |-> "discard", w |-> [why |-> "nonlinear"]]
-  ELSE
-  LET A == [j \in 1..N |-> Column(c.tl, st0, locs, c.pas, j)] IN
-  IF \E j \in 1..N : ~A[j].ok THEN [v |-> "discard", w |-> [why |-> "ub"]]
-  ELSE IF \E j \in 1..N : ~A[j].pasok THEN [v |-> "discard", w |-> [why |-> "tlpassive"]]
-  ELSE
-  LET xs == [i \in 1..N |-> VR(i, 1)]
-      TX == Run(c.tl, WithInput(st0, locs, xs))
-      lin == TX.sig = "" /\ OutVec(TX, locs) = [r \in 1..N |-> Comb(A, r, N)]
-  IN
-  IF ~lin THEN [v |-> "discard", w |-> [why |-> "nonlinear"]]
-  ELSE
-  LET B == [i \in 1..N |-> Column(c.ad, st0, locs, c.pas, i)]
-      undef == {i \in 1..N : ~B[i].ok}
+Skip(why) == [v |-> "discard", w |-> [why |-> why]]
+UnitVec(N, j) == TLCEval([r \in 1..N |-> IF r = j THEN ROne ELSE RZero])
+
+Judge4(c, st0, locs, N, A, B, D0) ==
+  LET undef == {i \in 1..N : ~B[i].ok}
       paschg == {i \in 1..N : B[i].ok /\ ~B[i].pasok}
-      D0 == Run(c.ad, st0)
   IN
   IF D0.sig # "" THEN [v |-> "NoNewUndefined", w |-> [col |-> 0]]
   ELSE IF undef # {} THEN
      [v |-> "NoNewUndefined", w |-> [col |-> CHOOSE i \in undef : \A k \in undef : i <= k]]
   ELSE IF paschg # {} \/ ~PassiveSame(D0, st0, c.pas) THEN
      LET M == IF paschg = {} THEN D0
-              ELSE Run(c.ad, WithInput(st0, locs,
-                         [k \in 1..N |-> IF k = (CHOOSE i \in paschg : TRUE) THEN ROne ELSE RZero]))
+              ELSE Run(c.ad, WithInput(st0, locs, UnitVec(N, CHOOSE i \in paschg : TRUE)))
          nm == CHOOSE x \in SeqSet(c.pas) : M.st[x].d # st0[x].d
      IN [v |-> "PassiveUnchanged", w |-> [name |-> nm, before |-> st0[nm].d, after |-> M.st[nm].d]]
   ELSE
@@ -130,23 +113,45 @@ Judge(c, val) ==
      IN [v |-> "Transpose",
          w |-> [i |-> locs[i], j |-> locs[j], adj |-> B[i].out[j], tl |-> A[j].out[i],
                 nbad |-> Cardinality(bad), n |-> N]]
-  ELSE IF \A j \in 1..N : A[j].out = [r \in 1..N |-> IF r = j THEN ROne ELSE RZero]
+  ELSE IF \A j \in 1..N : A[j].out = UnitVec(N, j)
   THEN [v |-> "trivial", w |-> [why |-> "identity"]]
   ELSE [v |-> "ok", w |-> [why |-> ""]]
+
+Judge3(c, st0, locs, N, A, TX) ==
+  IF \E j \in 1..N : ~A[j].ok THEN Skip("ub")
+  ELSE IF \E j \in 1..N : ~A[j].pasok THEN Skip("tlpassive")
+  ELSE IF TX.sig # "" THEN Skip("ub")
+  ELSE IF OutVec(TX, locs) # TLCEval([r \in 1..N |-> Comb(A, r, N)]) THEN Skip("nonlinear")
+  ELSE Judge4(c, st0, locs, N, A,
+              TLCEval([i \in 1..N |-> Column(c.ad, st0, locs, c.pas, i)]),
+              Run(c.ad, st0))
+
+Judge2(c, st0, locs, N, T0) ==
+  IF T0.sig # "" THEN Skip("ub")
+  ELSE IF ~PassiveSame(T0, st0, c.pas) THEN Skip("tlpassive")
+  ELSE IF OutVec(T0, locs) # TLCEval([i \in 1..N |-> RZero]) THEN Skip("nonlinear")
+  ELSE Judge3(c, st0, locs, N,
+              TLCEval([j \in 1..N |-> Column(c.tl, st0, locs, c.pas, j)]),
+              Run(c.tl, WithInput(st0, locs, TLCEval([i \in 1..N |-> VR(i, 1)]))))
+
+Judge1(c, st0, locs) == Judge2(c, st0, locs, Len(locs), Run(c.tl, st0))
+Judge0(c, st0) == Judge1(c, st0, TLCEval(LocsFrom(st0, c.act, 1)))
+Judge(c, val) == Judge0(c, BaseStore(c, val))
 
 Init == /\ cid \in 1..Len(Cases)
         /\ vid \in 1..Len(Cases[cid].vals)
         /\ verdict = "run"
 
+Emit(c, r) ==
+  /\ verdict' = r.v
+  /\ IF r.v = "ok" THEN TRUE
+     ELSE IF r.v \in {"discard", "trivial"}
+     THEN PrintT("SKIP " \o ToJson([id |-> c.id, vid |-> vid, v |-> r.v, why |-> r.w.why]))
+     ELSE PrintT("VERDICT " \o ToJson([id |-> c.id, vid |-> vid, v |-> r.v, w |-> r.w]))
+
 Step ==
   /\ verdict = "run"
-  /\ LET c == Cases[cid]
-         r == Judge(c, c.vals[vid])
-     IN /\ verdict' = r.v
-        /\ IF r.v = "ok" THEN TRUE
-           ELSE IF r.v \in {"discard", "trivial"}
-           THEN PrintT("SKIP " \o ToJson([id |-> c.id, vid |-> vid, v |-> r.v, why |-> r.w.why]))
-           ELSE PrintT("VERDICT " \o ToJson([id |-> c.id, vid |-> vid, v |-> r.v, w |-> r.w]))
+  /\ Emit(Cases[cid], Judge(Cases[cid], Cases[cid].vals[vid]))
   /\ UNCHANGED <<cid, vid>>
 
 Spec == Init /\ [][Step]_vars
